@@ -2,10 +2,10 @@ SPEC = {
     "id": "C40",
     "level": "proof",
     "lean_modules": ["PallasVerif.Props.C40"],
-    "required_theorems": ["build_no_panic", "build_inputs_canonical", "build_redeemers_point_at_targets",
+    "required_theorems": ["build_no_panic", "build_accepts_iff", "build_inputs_canonical", "build_redeemers_point_at_targets",
                           "mint_policies_ascending", "build_mint_content", "build_mint_no_zero", "mint_asset_accumulates",
                           "build_outputs_content", "build_content", "build_id_is_hash_of_body_span"],
-    "streams": [{"name": "txbuild", "quick": 500, "thorough": 20000}],
+    "streams": [{"name": "txbuild", "quick": 500, "thorough": 100000}],
     "rule": "a case = 4..90 staging calls (add/remove inputs from a pool of 5 tx hashes x boundary indexes incl. repeats, reference "
             "and collateral inputs, outputs with 0..4 assets incl. quantity 0 / 2^63 / 2^64-1 and 33-byte names, datum hash / "
             "inline datum / script refs, remove_output, fee, mint/burn with cancelling and extreme amounts, remove_mint_asset, "
